@@ -10,9 +10,15 @@ import (
 )
 
 func main() {
+	code := run()
+	ed.C10Cleanup()
+	os.Exit(code)
+}
+
+func run() int {
 	if len(os.Args) < 2 {
 		fmt.Fprintln(os.Stderr, "usage: ed check <id> | replay <file> | worker | racepass <id> | one <job-json>")
-		os.Exit(2)
+		return 2
 	}
 	switch os.Args[1] {
 	case "worker":
@@ -22,12 +28,9 @@ func main() {
 		var job ed.Job
 		if err := json.Unmarshal([]byte(os.Args[2]), &job); err != nil {
 			fmt.Fprintln(os.Stderr, err)
-			os.Exit(2)
+			return 2
 		}
 		jr := ed.RunJob(&job)
-		for _, l := range jr.Trace {
-			_ = l
-		}
 		if jr.Sample != nil {
 			for _, l := range jr.Sample.Schedule {
 				fmt.Println(l)
@@ -38,6 +41,7 @@ func main() {
 		b, _ := json.MarshalIndent(jr, "", " ")
 		fmt.Println(string(b))
 	default:
-		os.Exit(ed.Main(os.Args[1:]))
+		return ed.Main(os.Args[1:])
 	}
+	return 0
 }
